@@ -226,13 +226,14 @@ typedef struct {
     uint8_t  data[SDO_MAXDATA];
 } SModel;
 static SModel SM[CO_SSDO_N];
+static int    sdo_srv_off[CO_SSDO_N];    /* server switched off through its COB-ID 12xxh:1 (bit 31): requests on its identifier get no answer */
 static int    sdo_dirty_obj[CO_SSDO_N];  /* object whose content the model no longer predicts (open/unspecified download), -1 none */
 
 static void sm_reset(SModel *m) { memset(m, 0, sizeof *m); m->obj = -1; m->st = S_IDLE; }
 static void sdo_model_init(void)
 {
     for (int i = 0; i < CO_SSDO_N; i++) { sm_reset(&SM[i]); sdo_dirty_obj[i] = -1; }
-    W_REG(SM); W_REG(sdo_dirty_obj);
+    W_REG(SM); W_REG(sdo_dirty_obj); memset(sdo_srv_off, 0, sizeof sdo_srv_off); W_REG(sdo_srv_off);
     sdo_coarse = mc_opt("coarse", 0);
     if (sdo_coarse) w_prehash = sdo_prehash;
 }
